@@ -149,6 +149,17 @@ func Accel(t *rapid.T, cfg Cfg) *ast.Node {
 		return ast.Seq(s.accStr(t, 2, 6), tail())
 	case 1: // alternation of literals
 		a := ast.Alt()
+		if rapid.IntRange(0, 2).Draw(t, "manyalt") == 0 {
+			// six to nine branches with pairwise different first letters in drawn (unsorted) order: the
+			// multi-prefix search keeps a table of first runes
+			firsts := rapid.Permutation([]rune("tseaiozbxm")).Draw(t, "altfirsts")
+			n := rapid.IntRange(6, 9).Draw(t, "nmanyalt")
+			for i := 0; i < n; i++ {
+				rest := s.accStr(t, 1, 3)
+				a.Kids = append(a.Kids, ast.Lit(append([]rune{firsts[i]}, rest.R...)...))
+			}
+			return ast.Seq(ast.Group(ast.GNon, a), tail())
+		}
 		n := rapid.IntRange(2, 4).Draw(t, "nalt")
 		for i := 0; i < n; i++ {
 			a.Kids = append(a.Kids, s.accStr(t, 2, 4))
